@@ -796,6 +796,10 @@ class AbstractExcelInPython(ABC):
                     cell = 0
                 if is_number(cell):
                     comparable = cell
+                elif isinstance(cell, datetime.datetime):
+                    # the text form of a date joined by & is its serial number (">="&C1 gives ">=45306"): a date cell meets such
+                    # a criterion by its own serial number, time of day included
+                    comparable = (cell - datetime.datetime(1899, 12, 30)).total_seconds() / 86400
                 else:
                     comparable = self._criterion_number(cell) if operator in ('==', '!=') else None
             elif isinstance(value, datetime.datetime):
